@@ -1706,7 +1706,10 @@ def _extract_phase(
     excluded from the return value."""
     if not context.extract_global_phases or gate.global_shift == 0:
         return NotImplemented
-    result = [gate_class(exponent=gate.exponent).on(*qubits)]
+    # (the X and Z families also come for qudits: the gate without its phase keeps the dimension)
+    dimension = getattr(gate, 'dimension', 2)
+    kwargs = {} if dimension == 2 else {'dimension': dimension}
+    result = [gate_class(exponent=gate.exponent, **kwargs).on(*qubits)]
     phase_gate = global_phase_op.from_phase_and_exponent(gate.global_shift, gate.exponent)
     if not phase_gate.is_identity():
         result.append(phase_gate())
